@@ -399,7 +399,7 @@ def run(rep, tier):
     pp = env.extract([pos], 'full')[pos]
     prep = type(rep)(rep.prop, rep.tier)
     check_program(prep, pp)
-    for r in ('R03a', 'R03b', 'R03c', 'R03d', 'R03e'):
+    for r in ('R03a', 'R03b', 'R03c', 'R03d', 'R03e', 'R03f'):
         rep.positive(r, 'witness/positive/c03_races.cc', any(i.status == 'violation' and i.rule == r for i in prep.instances.values()))
     rep.assume('distinct elements of `trees` own disjoint SPNode sets (each SPTree allocates its own nodes; shared_ptr copies are transient), '
                'so trees[i].update_parities() writes element i only')
